@@ -80,9 +80,14 @@ func c08Run(rc *sim.RunCtx) {
 		restore := pool.Install()
 		sc := &sim.StepCounter{Cap: 60000}
 		restoreHook := sc.Install()
+		capped := false
 		for i := range specs {
+			sc.Steps = 0
 			a := c08RunOne(bc, sim.NewWorld(specs[i], nil), nil)
+			capped = capped || sc.Capped
+			sc.Steps = 0
 			b := c08RunOne(bc, sim.NewWorld(specs[i], nil), nil)
+			capped = capped || sc.Capped
 			if !a.out.Equal(b.out) || a.trace != b.trace {
 				restoreHook()
 				restore()
@@ -94,7 +99,7 @@ func c08Run(rc *sim.RunCtx) {
 		}
 		restoreHook()
 		restore()
-		if sc.Capped {
+		if capped {
 			rc.Discard = "workload-too-long"
 			return
 		}
